@@ -336,3 +336,184 @@ theorem readTransfer_origin (isHead : Bool) (sl : StatusLine) (hmaj : sl.major =
         · simp [afterTransfer]
 
 end Req.C02
+
+namespace Req.C02
+open Req.Proto Req.Ascii Req.H1
+
+/-! ### a whole head, and the 1xx loop -/
+
+/-- A response head as the origin writes it. -/
+structure OHead where
+  d1 : UInt8
+  d2 : UInt8
+  d3 : UInt8
+  reason : Bytes
+  fs : List WField
+deriving Repr
+
+def OHead.code (o : OHead) : Nat := codeOf o.d1 o.d2 o.d3
+
+def OHead.OK (o : OHead) : Prop :=
+  isDigit o.d1 = true ∧ isDigit o.d2 = true ∧ isDigit o.d3 = true ∧ (10 : UInt8) ∉ o.reason ∧
+  ∀ f ∈ o.fs, f.OK
+
+/-- status line CRLF field lines CRLF -/
+def OHead.wire (o : OHead) : Bytes := statusWire o.d1 o.d2 o.d3 o.reason ++ 13 :: 10 :: blockWire o.fs
+
+/-- The header map `ReadMIMEHeader` builds for the head. -/
+def OHead.hmap (o : OHead) : HeaderMap := hmapOf (fieldsOf o.fs)
+
+theorem statusWire_no_lf (o : OHead) (h : o.OK) : (10 : UInt8) ∉ statusWire o.d1 o.d2 o.d3 o.reason := by
+  obtain ⟨h1, h2, h3, hr, _⟩ := h
+  obtain ⟨_, _, _, a⟩ := digit_ne o.d1 h1
+  obtain ⟨_, _, _, b⟩ := digit_ne o.d2 h2
+  obtain ⟨_, _, _, c⟩ := digit_ne o.d3 h3
+  simp only [statusWire, List.cons_append, List.nil_append, List.mem_cons, not_or]
+  refine ⟨by decide, by decide, by decide, by decide, by decide, by decide, by decide, by decide, by decide,
+    Ne.symm a, Ne.symm b, Ne.symm c, by decide, hr⟩
+
+/-- **One head**: the byte-exact reader returns the origin's status code, and `readTransfer`'s
+verdict on the origin's framing fields; it consumes exactly the head. -/
+theorem parseHead_origin (isHead : Bool) (o : OHead) (ho : o.OK)
+    (cc chunked : Bool) (te : Bytes) (cl : Option (Bytes × Nat)) (tr : Option Bytes)
+    (hE : FrameEntries o.hmap cc chunked te cl tr)
+    (hexcl : chunked = true → cl = none) (htrc : tr.isSome = true → chunked = true)
+    (hkeys : ∀ tv, tr = some tv → (declKeys tv).any badTrailerKey = false) (R : Bytes) :
+    ∃ msg, Req.H1.parseHead isHead (o.wire ++ R) = some (msg, R) ∧ msg.sl.code = o.code ∧
+      msg.teChunked = chunked ∧ msg.trailerDecl = trailerDeclOf tr ∧
+      (let noBody := isHead || !Req.H1.bodyAllowedForStatus o.code
+       msg.framing =
+         (if noBody then RespFraming.none
+          else if chunked then RespFraming.chunked
+          else framingOfCL cl) ∧
+       msg.header = afterTransfer o.hmap cc chunked (!noBody && (chunked || cl.isNone)) tr.isSome) := by
+  obtain ⟨sl, hsl, hcode, hmaj, hmin⟩ := parseStatusLine_origin o.d1 o.d2 o.d3 o.reason ho.1 ho.2.1 ho.2.2.1
+  obtain ⟨msg, hrt, hmsl, h2, h3, h4⟩ :=
+    readTransfer_origin isHead sl hmaj hmin o.hmap cc chunked te cl tr hE hexcl htrc hkeys
+  have hline : Req.H1.readLine (o.wire ++ R) =
+      some (statusWire o.d1 o.d2 o.d3 o.reason, blockWire o.fs ++ R) := by
+    have := h1_readLine_crlf (statusWire o.d1 o.d2 o.d3 o.reason) (blockWire o.fs ++ R) (statusWire_no_lf o ho)
+    simpa [OHead.wire, List.append_assoc] using this
+  refine ⟨msg, ?_, by rw [hmsl, hcode]; rfl, h2, h3, ?_⟩
+  · unfold Req.H1.parseHead
+    simp only [hline, hsl, readMIMEHeader_block o.fs ho.2.2.2.2 R]
+    have : hmapOf (fieldsOf o.fs) = o.hmap := rfl
+    rw [this, hrt]
+  · have hc : sl.code = o.code := by rw [hcode]; rfl
+    rw [hc] at h4
+    exact h4
+
+/-- An interim response: 1xx other than 101, no framing fields. -/
+def OHead.Interim (o : OHead) : Prop :=
+  o.OK ∧ o.d1 = 49 ∧ ¬ (o.d2 = 48 ∧ o.d3 = 49) ∧
+  FrameEntries o.hmap false false vChunked none none
+
+theorem digit_val (d : UInt8) (h : isDigit d = true) : d.toNat - 48 ≤ 9 ∧ 48 ≤ d.toNat := by
+  simp only [isDigit, Bool.and_eq_true, decide_eq_true_eq] at h
+  have h1 := UInt8.le_iff_toNat_le.mp h.1
+  have h2 := UInt8.le_iff_toNat_le.mp h.2
+  simp at h1 h2
+  omega
+
+theorem interim_code (o : OHead) (h : o.Interim) : 100 ≤ o.code ∧ o.code ≤ 199 ∧ o.code ≠ 101 := by
+  obtain ⟨ho, h1, hne, _⟩ := h
+  obtain ⟨a2, b2⟩ := digit_val o.d2 ho.2.1
+  obtain ⟨a3, b3⟩ := digit_val o.d3 ho.2.2.1
+  have hd1 : o.d1.toNat = 49 := by rw [h1]; rfl
+  simp only [OHead.code, codeOf, hd1]
+  refine ⟨by omega, by omega, ?_⟩
+  intro h101
+  apply hne
+  have e2 : o.d2.toNat = 48 := by omega
+  have e3 : o.d3.toNat = 49 := by omega
+  exact ⟨UInt8.toNat_inj.mp e2, UInt8.toNat_inj.mp e3⟩
+
+def interimsWire (is : List OHead) : Bytes := (is.map OHead.wire).flatten
+
+/-- **The 1xx loop** (`persistConn.readResponse`): up to five interim responses are skipped,
+the final head is returned as `parseHead` reads it. -/
+theorem parseFinalHead_origin (isHead : Bool) (is : List OHead) (his : ∀ i ∈ is, i.Interim)
+    (fuel : Nat) (hfuel : is.length < fuel) (W : Bytes) (res : Option (Msg × Bytes))
+    (hfinal : Req.H1.parseHead isHead W = res)
+    (hcode : ∀ m r, res = some (m, r) → ¬ (100 ≤ m.sl.code ∧ m.sl.code ≤ 199 ∧ m.sl.code ≠ 101)) :
+    Req.H1.parseFinalHead fuel isHead (interimsWire is ++ W) = res := by
+  induction is generalizing fuel with
+  | nil =>
+    cases fuel with
+    | zero => simp at hfuel
+    | succ fuel =>
+      simp only [interimsWire, List.map_nil, List.flatten_nil, List.nil_append]
+      unfold Req.H1.parseFinalHead
+      rw [hfinal]
+      cases res with
+      | none => rfl
+      | some p =>
+        rcases p with ⟨m, r⟩
+        have := hcode m r rfl
+        simp only [this, if_false]
+  | cons i is ih =>
+    cases fuel with
+    | zero => simp at hfuel
+    | succ fuel =>
+      have hi := his i (by simp)
+      obtain ⟨msg, hph, hc, _⟩ := parseHead_origin isHead i hi.1 false false vChunked none none hi.2.2.2
+        (by simp) (by simp) (by simp) (interimsWire is ++ W)
+      have hw : interimsWire (i :: is) ++ W = i.wire ++ (interimsWire is ++ W) := by
+        simp [interimsWire, List.append_assoc]
+      rw [hw]
+      unfold Req.H1.parseFinalHead
+      rw [hph]
+      have hcode' := interim_code i hi
+      rw [← hc] at hcode'
+      simp only [hcode', ne_eq, not_false_eq_true, and_self, if_true]
+      exact ih (fun j hj => his j (by simp [hj])) fuel (by simp at hfuel; omega)
+
+end Req.C02
+
+namespace Req.C02
+open Req.Proto Req.Ascii Req.H1
+
+/-! ### decidable forms of the origin-side well-formedness predicates (for examples) -/
+
+def valueOKb (v : Bytes) : Bool :=
+  (v.all fun c => (c ≥ 32 ∧ c != 127) ∨ c == 9) &&
+  (match v.head? with | some a => !Req.C02.isOWS a | none => true) &&
+  (match v.getLast? with | some a => !Req.C02.isOWS a | none => true)
+
+theorem valueOK_of_bool (v : Bytes) (h : valueOKb v = true) : ValueOK v := by
+  simp only [valueOKb, Bool.and_eq_true] at h
+  obtain ⟨⟨h1, h2⟩, h3⟩ := h
+  refine ⟨h1, ?_, ?_⟩
+  · intro a rest hv
+    subst hv
+    simpa using h2
+  · intro a pre hv
+    subst hv
+    simpa using h3
+
+def wfieldOKb (f : WField) : Bool :=
+  !f.name.isEmpty && f.name.all isTokenByte && valueOKb f.value &&
+  f.pad1.all Req.C02.isOWS && f.pad2.all Req.C02.isOWS
+
+theorem wfield_ok_of_bool (f : WField) (h : wfieldOKb f = true) : f.OK := by
+  simp only [wfieldOKb, Bool.and_eq_true] at h
+  obtain ⟨⟨⟨⟨h1, h2⟩, h3⟩, h4⟩, h5⟩ := h
+  refine ⟨?_, h2, valueOK_of_bool _ h3, ?_, ?_⟩
+  · intro hn; rw [hn] at h1; simp at h1
+  · exact fun x hx => List.all_eq_true.mp h4 x hx
+  · exact fun x hx => List.all_eq_true.mp h5 x hx
+
+def oheadOKb (o : OHead) : Bool :=
+  isDigit o.d1 && isDigit o.d2 && isDigit o.d3 && !o.reason.contains 10 && o.fs.all wfieldOKb
+
+theorem ohead_ok_of_bool (o : OHead) (h : oheadOKb o = true) : o.OK := by
+  simp only [oheadOKb, Bool.and_eq_true] at h
+  obtain ⟨⟨⟨⟨h1, h2⟩, h3⟩, h4⟩, h5⟩ := h
+  refine ⟨h1, h2, h3, ?_, ?_⟩
+  · intro hm
+    have : o.reason.contains 10 = true := by simpa using hm
+    rw [this] at h4
+    simp at h4
+  · exact fun f hf => wfield_ok_of_bool f (List.all_eq_true.mp h5 f hf)
+
+end Req.C02
